@@ -96,7 +96,7 @@ def memOffRowOk (name : String) (d : BaseRM_SImm9Row) : Bool :=
 
 /-- mnemonics whose database rows had to be relaxed by tools/a64db_errata.json (W/X variants of the sign-extending loads): their
 forms are partial, so they are judged `partialOk` by the monitor and are not covered by the theorem below -/
-def memOffRelaxed : List String := ["ldtrsb", "ldtrsh", "ldursb", "ldursh"]
+def memOffRelaxed : List String := []
 
 set_option maxRecDepth 1000000 in
 theorem rows_rmSImm9_unscaled_have_forms :
